@@ -806,6 +806,7 @@ def lock_cycle_queries(tr, enc):
 def flips(tr, enc, tried, limit):
     """reads-from flips: (order) lists leading to new classes"""
     out = []
+    trace_id = hash(tr.class_signature())
     writes = defaultdict(list)
     for s in tr.sections:
         if s.write:
@@ -822,7 +823,11 @@ def flips(tr, enc, tried, limit):
             if w is None and cur is None:
                 continue
             key = (r.task, r.obj, r.ordinal, (w.task, w.ordinal) if w else None, prefix_key(tr, r))
-            if key in tried:
+            # the minimal-prefix query is asked once per key; the trace-prefix query depends on the whole
+            # trace and is asked once per (key, reads-from class)
+            keyb = (key, trace_id)
+            seen_a = key in tried
+            if seen_a and keyb in tried:
                 continue
             if len(out) >= limit:
                 return out
@@ -834,6 +839,7 @@ def flips(tr, enc, tried, limit):
             if r.acq in inc:
                 continue  # w causally depends on r (in this trace: the pair stays open for other traces)
             tried.add(key)
+            tried.add(keyb)
             inc2 = set(inc)
             # r's request/acquire take part as events
             for i in tr.by_task[r.task]:
@@ -860,7 +866,7 @@ def flips(tr, enc, tried, limit):
                 inc3 |= enc.closure(last, free=(r, w))
             if any(s2.acq in inc3 for s2 in forbidden):
                 inc3 = inc2
-            variants = [inc2] if inc3 == inc2 else [inc2, inc3]
+            variants = ([] if seen_a else [inc2]) + ([] if inc3 == inc2 else [inc3])
             for incv in variants:
                 cons = enc.base(incv) + enc.rf_consistency(incv, skip=(r, w))
                 O = enc.O
@@ -964,7 +970,9 @@ def explore(binary, scenario, props, budget, seed):
                 stats['pending'] = len(work) + len(hi)
                 break
             turn += 1
-            if hi and STRATEGY != 'bfs':
+            # two of three turns go to the schedules derived from novel traces, the third to the plain
+            # first-in-first-out list (so neither starves within a class budget)
+            if hi and STRATEGY != 'bfs' and (turn % 3 != 0 or not work):
                 kind, payload = hi.pop(0)
             elif not work:
                 break
@@ -1083,7 +1091,9 @@ def main():
         # every scenario carries the deadlock monitors; the quick tier takes a seed-selected half
         scen = [s for i, s in enumerate(scen) if (i + seed) % 2 == 0]
     # the class budget is the binding one (deterministic); the wall-clock cap only guards against a loaded machine
-    budget = {'classes': int(os.environ.get('P_CLASSES','60')), 'seconds': 400, 'flips_per_trace': int(os.environ.get('P_FLIPS','40'))} if tier == 'quick' else {'classes': 1500, 'seconds': 1800, 'flips_per_trace': 400}
+    # quick class budgets per property: small catalogues of small scenarios afford more classes per scenario
+    qc = {'C12': 300, 'C18': 300, 'C08': 150, 'C11': 100, 'C19': 80}.get(prop, 60)
+    budget = {'classes': int(os.environ.get('P_CLASSES', qc)), 'seconds': 400, 'flips_per_trace': int(os.environ.get('P_FLIPS','40'))} if tier == 'quick' else {'classes': 1500, 'seconds': 1800, 'flips_per_trace': 400}
     # wall-clock guard for the whole property: the scenarios share `jobs` processes, so each gets its share of the
     # deadline (a scenario stopped by it is reported as not exhaustive, never as a pass of more than it explored)
     deadline = float(opt('--deadline', '0') or 0)
